@@ -121,3 +121,13 @@ contract(
     id="structtag.decode.short", func=CT + "StructTag.<locals>.StructTag._decode", call="T.decode(data)",
     params={"data": P.bytes(maxlen=15)}, setup=[f"T = {UDT}"], ensures=["False"],
     raises_only=["pycomm3.exceptions.DataError"], props=["C08"])
+# frame condition: an encoded value is its own object -- encoding a second value of the type leaves the first one untouched
+# (two structures of one type in one write call are both encoded before either is sent)
+_VALS = dict(a=P.int(-2**31, 2**31 - 1), r=P.float(), arr=P.list(P.int(0, 65535), 2), b0=P.bool(), b7=P.bool())
+contract(
+    id="structtag.encode.no_alias", func=CT + "StructTag.<locals>.StructTag._encode", call="bytes(T.encode(second))",
+    params={"first": P.dict(**_VALS), "second": P.dict(**_VALS)},
+    setup=[f"T = {UDT}", "e1 = T.encode(first)"],
+    ensures=[f"result == spec.logix.udt_bytes({LAYOUT}, second)", f"bytes(e1) == spec.logix.udt_bytes({LAYOUT}, first)"],
+    raises_only=["pycomm3.exceptions.DataError"],       # a float outside the REAL range cannot be packed
+    props=["C02", "C07"], max_paths=20000)
